@@ -240,6 +240,20 @@ def regenerate(repo, outdir):
         and has("askar-storage/src/protect/mod.rs", r"fn remove_profile\(&self[^#]*?write\(\)\.await[^#]*?fetch_add\(")
         and len(re.findall(r"removal_count\(\)", sq)) >= 2 and len(re.findall(r"add_profile_unless_removed\(", sq)) >= 2
         and not re.search(r"\.add_profile\(", sq))
+    # D38: JwkBufferEncoder::finalize writes the opening '[' of the key_ops array
+    flags["jwkKeyOpsOpenBracket"] = has("askar-crypto/src/jwk/encode.rs", r'start_attr\("key_ops"\)\?;[\s\S]*?buffer_write\(b"\[(\\")?"\)[\s\S]*?buffer_write\(b"\]"\)')
+    # D40: Writer<[u8]> as a ResizeBuffer: splice copies forward from range.end, buffer_resize takes the absolute length
+    wsrc = read(repo, "askar-crypto/src/buffer/writer.rs")
+    flags["writerResizeBufferFixed"] = ("range.end - diff)..self.pos" not in wsrc) and (re.search(r"let\s+len\s*=\s*self\.pos\s*\+\s*len\s*;", wsrc) is None)
+    # D41: the Indy migration is ONE exclusive transaction (pre_upgrade does not COMMIT, finish_upgrade does not BEGIN)
+    mig = read(repo, "askar-storage/src/migration/mod.rs")
+    pre = re.search(r"async fn pre_upgrade\(.*?\n    \}\n", mig, re.S)
+    fin = re.search(r"async fn finish_upgrade\(.*?\n    \}\n", mig, re.S)
+    if not pre or not fin:
+        raise RuntimeError("migration/mod.rs: pre_upgrade / finish_upgrade not found in the expected shape")
+    flags["migrateSingleTransaction"] = (
+        bool(re.search(r"\bBEGIN\b", pre.group(0))) and not re.search(r"\bCOMMIT\b", pre.group(0))
+        and not re.search(r"\bBEGIN\b", fin.group(0)) and bool(re.search(r"\bCOMMIT\b", fin.group(0))))
     fl = ["/- GENERATED by tools/extract.py from /repo on every run — do not edit. -/", "namespace Askar.Generated.Flags", ""]
     for k, v in flags.items():
         fl.append(f"def {k} : Bool := {'true' if v else 'false'}")
